@@ -27,17 +27,19 @@ import (
 )
 
 type round struct {
+	Alt     bool   `json:"alt"`
 	Key     string `json:"key"`
 	Digest  string `json:"digest"`
 	Outcome string `json:"outcome"`
 }
 
 type Case struct {
-	Type   string  `json:"type"`
-	Mode   string  `json:"mode"`
-	Rounds []round `json:"rounds"`
-	NSigs  int     `json:"nsigs"`
-	Probe  bool    `json:"probe"`
+	Variant string  `json:"variant"`
+	Type    string  `json:"type"`
+	Mode    string  `json:"mode"`
+	Rounds  []round `json:"rounds"`
+	NSigs   int     `json:"nsigs"`
+	Probe   bool    `json:"probe"`
 }
 
 type srvCtx struct {
@@ -78,11 +80,17 @@ func (rp *Replayer) Close() {
 }
 
 // signViaServer mirrors cmdline/remotecmd/signcmd.go against the real handler.
-func (rp *Replayer) signViaServer(ti *TypeInfo, keyName, digest, in, out string) error {
+func (rp *Replayer) signViaServer(ti *TypeInfo, typ string, rd round, in, out string) error {
+	keyName, digest := rd.Key, rd.Digest
 	mod := signers.ByName(ti.SigType)
 	q := url.Values{}
 	for a, b := range ti.Query {
 		q.Set(a, b)
+	}
+	if rd.Alt {
+		for a, b := range AltQuery[typ] {
+			q.Set(a, b)
+		}
 	}
 	flags, err := mod.FlagsFromQuery(q)
 	if err != nil {
@@ -149,9 +157,20 @@ func (rp *Replayer) fail(c *Case, kind string, extra map[string]string, format s
 }
 
 func hist(c *Case) string {
+	if c.Variant != "" && c.Variant != "plain" {
+		return "(" + c.Variant + ") " + hist0(c)
+	}
+	return hist0(c)
+}
+
+func hist0(c *Case) string {
 	var p []string
 	for _, r := range c.Rounds {
-		p = append(p, r.Key+":"+r.Digest)
+		a := ""
+		if r.Alt {
+			a = ":alt"
+		}
+		p = append(p, r.Key+":"+r.Digest+a)
 	}
 	return "[" + strings.Join(p, " ") + "]"
 }
@@ -177,6 +196,7 @@ func (rp *Replayer) Replay(c *Case, keep bool) (final string, orig string) {
 	if err != nil {
 		panic(err)
 	}
+	src = applyVariant(c.Type, c.Variant, src, base)
 	os.WriteFile(orig, src, 0600)
 	origItems, haveReader, rerr := PayloadItems(c.Type, orig)
 	if haveReader && rerr != nil {
@@ -210,11 +230,16 @@ func (rp *Replayer) Replay(c *Case, keep bool) (final string, orig string) {
 		os.Chtimes(in, old, old)
 		var serr error
 		if c.Mode == "server" {
-			serr = rp.signViaServer(ti, rd.Key, rd.Digest, in, out)
+			serr = rp.signViaServer(ti, c.Type, rd, in, out)
 		} else {
 			q := url.Values{}
 			for a, b := range ti.Query {
 				q.Set(a, b)
+			}
+			if rd.Alt {
+				for a, b := range AltQuery[c.Type] {
+					q.Set(a, b)
+				}
 			}
 			_, serr = pipex.Sign(pipex.SignRequest{Cfg: rp.W.Cfg, Token: rp.W.Token, KeyName: rd.Key, SigType: ti.SigType, In: in, Out: out, Digest: rd.Digest, Query: q})
 		}
@@ -248,9 +273,29 @@ func (rp *Replayer) Replay(c *Case, keep bool) (final string, orig string) {
 		}
 		signedOnce = true
 		cur = out
+		ki := rp.W.Keys[rd.Key]
+		malformed := false
+		// the three observers are independent of each other: an independent reader (C03), the ecosystem's
+		// reference verifiers (C05) and relic's own verifier (C01/C08) each get to see the output
+		// --- payload preserved according to an independent reader
+		if haveReader && !ti.Detached && ti.OutExt == "" {
+			outItems, _, oerr := PayloadItems(c.Type, cur)
+			if oerr != nil {
+				rp.fail(c, "output-malformed", x, "round %d: independent reader cannot read the output: %v", i+1, oerr)
+				malformed = true
+			}
+			if ok, why := ItemsEqual(origItems, outItems); !ok {
+				rp.fail(c, "payload-changed", x, "round %d: payload differs from the original input: %s", i+1, why)
+				malformed = true
+			}
+			rp.R.Count("payload_checked", 1)
+		}
+		if rp.External {
+			rp.external(c, ti, ki, cur, orig, x)
+		}
+		_ = malformed
 		// --- relic's own verifier with integrity + chain checking
 		vr := pipex.VerifyRequest{Path: cur, SigType: ti.SigType, Roots: []*x509.Certificate{rp.W.Root.Cert}}
-		ki := rp.W.Keys[rd.Key]
 		if ti.Pgp {
 			vr.TrustedPgp = loadPgp(ki.PgpPath)
 			vr.Roots = nil
@@ -282,19 +327,6 @@ func (rp *Replayer) Replay(c *Case, keep bool) (final string, orig string) {
 			rp.fail(c, "names-wrong-digest", x, "round %d: signature uses %v, requested %v", i+1, s.Hash, wantHash)
 			return "", orig
 		}
-		// --- payload preserved according to an independent reader
-		if haveReader && !ti.Detached && ti.OutExt == "" {
-			outItems, _, oerr := PayloadItems(c.Type, cur)
-			if oerr != nil {
-				rp.fail(c, "output-malformed", x, "round %d: independent reader cannot read the output: %v", i+1, oerr)
-				return "", orig
-			}
-			if ok, why := ItemsEqual(origItems, outItems); !ok {
-				rp.fail(c, "payload-changed", x, "round %d: payload differs from the original input: %s", i+1, why)
-				return "", orig
-			}
-			rp.R.Count("payload_checked", 1)
-		}
 		// --- is-signed probe on relic's output
 		if ti.OutExt == "" {
 			f, _ := os.Open(cur)
@@ -314,9 +346,7 @@ func (rp *Replayer) Replay(c *Case, keep bool) (final string, orig string) {
 				contentDigest[rd.Digest] = cd
 			}
 		}
-		if rp.External {
-			rp.external(c, ti, ki, cur, orig, x)
-		}
+
 		rp.R.Count("signed_verified", 1)
 	}
 	rp.R.Eval(signedOnce)
